@@ -20,14 +20,16 @@ def job(ctx, name, trace):
 def check(ctx):
     # Leg A: limb reference = algorithm transcription = mathematical statement, small worlds
     ctx.design("IPCalcMC.tla", "IPCalcMC_W6.cfg")
+    ctx.design("IPCalcMC.tla", "IPCalcMC_W10.cfg", workers=8)
     if not ctx.quick:
-        ctx.design("IPCalcMC.tla", "IPCalcMC_W8.cfg", workers=8)
+        ctx.design("IPCalcMC.tla", "IPCalcMC_W8.cfg", workers=8)          # four limbs: carries across several limbs of the reference
+        ctx.design("IPCalcMC.tla", "IPCalcMC_W12.cfg", workers=12, timeout=2400)
         ctx.design("IPCalcMC.tla", "IPCalcMC_W6_unguarded.cfg", expect_fail="AlgUnguardedIsMath")
     # Leg B: small world embedded into 128 bit + seeded random/boundary cases on the real functions
     h = ctx.need_harness()
     wd = ctx.scratch.sub("ipcalc")
     trace = os.path.join(wd, "trace.ndjson")
-    w, n = (6, 12000) if ctx.quick else (8, 150000)
+    w, n = (6, 12000) if ctx.quick else (10, 300000)
     core.run_harness(h, ["ipcalc", "-out", trace, "-seed", ctx.seed, "-w", w, "-n", n], wd)
     # Leg C
     runner.run_job(ctx, job(ctx, "ipcalc", trace))
